@@ -352,6 +352,15 @@ func (c *Ctx) fillTypeFacts(tf *typeFacts) {
 	} else {
 		tf.LenDyn = "multi"
 	}
+	c.padFacts(tf, padF)
+	// Serialize
+	c.serializeFacts(tf, serF, 0)
+	// decoder
+	c.decoderFacts(tf)
+}
+
+// padFacts analyses Padding(): a constant, or roundup4(x) − x with x the Len() expression.
+func (c *Ctx) padFacts(tf *typeFacts, padF *ssa.Function) {
 	// Padding
 	if rv := singleReturn(padF); rv != nil {
 		if k, ok := flow.ConstInt(rv); ok {
@@ -384,10 +393,6 @@ func (c *Ctx) fillTypeFacts(tf *typeFacts) {
 		// multi-return (Address): handled by the caller as dynamic
 		tf.PadWhy = "multi"
 	}
-	// Serialize
-	c.serializeFacts(tf, serF, 0)
-	// decoder
-	c.decoderFacts(tf)
 }
 
 func (c *Ctx) serializeFacts(tf *typeFacts, serF *ssa.Function, depth int) {
